@@ -9,6 +9,41 @@ ALL = ["C%02d" % i for i in range(1, 21)]
 
 # id -> (category, text, note, technique, design_ref)
 CHECKS = {
+    "C08": ("exploration",
+            "The real location cache (guarded export of the client's key->region cache, same code path as region "
+            "discovery) is driven with put/remove histories in lock-step with a brute-force interval model; after every "
+            "operation contents, returned overlaps, the replaced flag, dead marks and pairwise non-overlap of the real "
+            "contents are compared. Exhaustive for all histories up to length 3 (thorough 4) over a 3-point lattice, "
+            "seeded random histories of up to 30 operations beyond.",
+            "Trusted: the interval model (20 lines). Ties (equal id, different name) are judged only by the invariant. "
+            "Histories outside the enumerated scope and the random sample are not judged.",
+            "runtime lock-step reference-model monitor over exhaustive small-scope + random histories", "DESIGN.md §2 C08"),
+    "C10": ("exploration",
+            "Generated mutations of every kind and map shape with boundary lengths and timestamps are serialised by the "
+            "real client into cellblocks and into protobuf; an independent KeyValue decoder and the client's own decoder "
+            "read the bytes back and both encodings are normalised to cell sets and compared with each other and with "
+            "the input (byte counts included).",
+            "Trusted: the independent KeyValue codec in /verif/sim/kv.go and HBase's delete-type mapping. Seeded sample "
+            "of the input space, boundary-biased; not exhaustive.",
+            "runtime differential oracle (independent decoder + round trip) over generated inputs", "DESIGN.md §2 C10"),
+    "C11": ("exploration",
+            "Millions of structure-aware malformed inputs (every length/count/index field set to boundary values, "
+            "truncations, bit flips, splices, random bytes, inconsistent but well-formed protobufs) are fed to the real "
+            "decoders and to the real connection reader's receive step for outstanding get/mutate/scan/multi calls, with "
+            "and without compression, and to the region-info parser followed by insertion into the location cache. "
+            "Monitors: recover() with cap==len inputs (panics and over-reads), an allocation meter (attacker-chosen "
+            "counts), a bounded wait (reader blocked on a double delivery), child-process crash monitor for fatal errors.",
+            "Held on the generated inputs only. Frame size itself (up to 4 GiB announced) is not bounded by the client "
+            "and not judged. A missing result in a multi-response (caller keeps waiting) is not judged here.",
+            "runtime crash/alloc/hang monitors over structure-aware mutational inputs", "DESIGN.md §2 C11"),
+    "C15": ("exploration",
+            "Payloads of boundary sizes around the 218421-byte chunk, given as several buffers, are compressed by the "
+            "client and decoded by an independent Hadoop block-stream reader (structure checked) and by the client; "
+            "conforming multi-block streams written by the independent writer are decoded by the client; every "
+            "truncation and single-byte corruption of small streams and sampled ones of large streams must give an error "
+            "or the original bytes. Two inherent format limits are recorded as known findings.",
+            "Trusted: github.com/golang/snappy block codec and the framing re-implemented in /verif/sim/blockcodec.go.",
+            "runtime differential oracle + corruption/truncation enumeration", "DESIGN.md §2 C15"),
     "C16": ("exploration",
             "The real comparator is executed on every ordered pair of an exhaustively enumerated small-scope set of "
             "well-formed region names (prefix tables, namespaces, commas and bytes around ',' in start keys, ids of "
